@@ -234,6 +234,8 @@ class Sched:
         # hand the baton to the driver, park this thread until tear-down
         self.main.state = 'ready'
         self.main.sem.release()
+        if me.done:
+            return            # a thread on its way out just leaves
         me.sem.acquire()
         raise SchedAbort()
 
